@@ -105,9 +105,9 @@ type decodeStream struct{ mode string } // mode: "valid" (C01) or "hostile" (C02
 func (s decodeStream) Name() string { return "decode-" + s.mode }
 func (s decodeStream) Rule() string {
 	if s.mode == "valid" {
-		return "typed requests of the seven operations (edge-biased ids, binary strings incl. >127/>65535 bytes, 0..3 attrs/changes/values, 0..4 controls of all nine kinds in random order, grammar-generated filters; one case in ten is a request gldap must refuse: compare, modifyDN, abandon, unassigned or response application tags, or a bind with version != 3) encoded by the harness's own RFC 4511 encoder, with wire-form variations; expectation computed from the typed request; non-trivial = decoded ok, distinct by frame bytes"
+		return "typed requests of the seven operations (edge-biased ids, binary strings incl. >127/>65535 bytes, 0..3 attrs/changes/values, 0..4 controls of all nine kinds in random order, grammar-generated filters; one case in ten is a request gldap must refuse: compare, modifyDN, abandon, unassigned or response application tags, or a bind with version != 3) encoded by the harness's own RFC 4511 encoder, with wire-form variations; one frame in four is read as the third request of its connection; expectation computed from the typed request; non-trivial = decoded ok, distinct by frame bytes"
 	}
-	return "single/double structured mutations of canonical requests (node kind replacement, child delete/duplicate/swap, list truncate/extend, class/tag/constructed flips, content damage, length-octet corruption) plus random byte streams; non-trivial = frame parses as BER (reaches gldap's own decoder), distinct by frame bytes"
+	return "single/double structured mutations of canonical requests (node kind replacement, child delete/duplicate/swap, list truncate/extend, class/tag/constructed flips, content damage, length-octet corruption) plus random byte streams; one frame in four is read as the THIRD request of its connection, after a well-formed bind and search; non-trivial = frame parses as BER (reaches gldap's own decoder), distinct by frame bytes"
 }
 
 // filterArg computes what go-ldap's DecompileFilter yields on the filter position.
